@@ -292,75 +292,86 @@ Definition validate (c : hcfg) (q : query) : bool :=
 Definition at_tracked (r : hrec) (i : Z) : option N :=
   if (i <? 0)%Z then None else nth_error (r_tracked r) (Z.to_nat i).
 
-(* Each state clause below returns false when a slice access panics and true
-   otherwise: its `continue` statements continue the INNER loop, so the
-   clause never rejects the record. *)
+(* The four state clauses.  m.Index1(state) = slices.Index(Cfg.TrackedStates,
+   state) is -1 for a state that is not tracked, and MTimeTracked[-1] panics;
+   ValidateQuery rejects such a query before the loop is entered.  A record is
+   rejected (`continue records`) as soon as one listed state fails.
+   (Before eab91e0 every `continue` continued the INNER loop, so no clause ever
+   rejected a record, and Inactive indexed with the machine index.) *)
+Inductive cl_res := CPanic | CReject | CPass.
 
 (* for _, state := range query.Active {
-     if !IsActiveTick(r.Time.MTimeTracked[m.Index1(state)]) { continue } } *)
-Fixpoint clause_active (c : hcfg) (r : hrec) (l : list nat) : bool :=
+     if !IsActiveTick(r.Time.MTimeTracked[m.Index1(state)]) { continue records } } *)
+Fixpoint clause_active (c : hcfg) (r : hrec) (l : list nat) : cl_res :=
   match l with
-  | [] => true
+  | [] => CPass
   | s :: rest =>
     match at_tracked r (tracked_index c s) with
-    | None => false
-    | Some t => if negb (active_tick t) then clause_active c r rest else clause_active c r rest
+    | None => CPanic
+    | Some t => if negb (active_tick t) then CReject else clause_active c r rest
     end
   end.
 
-Fixpoint clause_activated (c : hcfg) (r : hrec) (older : option hrec) (l : list nat) : bool :=
+(* idx := m.Index1(state)
+   if !IsActiveTick(r...[idx]) { continue records }
+   if older != nil && IsActiveTick(older...[idx]) { continue records } *)
+Fixpoint clause_activated (c : hcfg) (r : hrec) (older : option hrec) (l : list nat) : cl_res :=
   match l with
-  | [] => true
+  | [] => CPass
   | s :: rest =>
     let idx := tracked_index c s in
     match at_tracked r idx with
-    | None => false
+    | None => CPanic
     | Some t =>
-      if negb (active_tick t) then clause_activated c r older rest
+      if negb (active_tick t) then CReject
       else match older with
            | None => clause_activated c r older rest
            | Some o =>
              match at_tracked o idx with
-             | None => false
-             | Some _ => clause_activated c r older rest
+             | None => CPanic
+             | Some t' => if active_tick t' then CReject
+                          else clause_activated c r older rest
              end
            end
     end
   end.
 
-(* Inactive indexes MTimeTracked with mach.Index1(state): the MACHINE index *)
-Fixpoint clause_inactive (r : hrec) (l : list nat) : bool :=
+(* if IsActiveTick(r.Time.MTimeTracked[m.Index1(state)]) { continue records } *)
+Fixpoint clause_inactive (c : hcfg) (r : hrec) (l : list nat) : cl_res :=
   match l with
-  | [] => true
+  | [] => CPass
   | s :: rest =>
-    match at_tracked r (Z.of_nat s) with
-    | None => false
-    | Some _ => clause_inactive r rest
+    match at_tracked r (tracked_index c s) with
+    | None => CPanic
+    | Some t => if active_tick t then CReject else clause_inactive c r rest
     end
   end.
 
-Fixpoint clause_deactivated (c : hcfg) (r : hrec) (older : option hrec) (l : list nat) : bool :=
+(* if IsActiveTick(r...[idx]) { continue records }
+   if older != nil && !IsActiveTick(older...[idx]) { continue records } *)
+Fixpoint clause_deactivated (c : hcfg) (r : hrec) (older : option hrec) (l : list nat) : cl_res :=
   match l with
-  | [] => true
+  | [] => CPass
   | s :: rest =>
     let idx := tracked_index c s in
     match at_tracked r idx with
-    | None => false
+    | None => CPanic
     | Some t =>
-      if active_tick t then clause_deactivated c r older rest
+      if active_tick t then CReject
       else match older with
            | None => clause_deactivated c r older rest
            | Some o =>
              match at_tracked o idx with
-             | None => false
-             | Some _ => clause_deactivated c r older rest
+             | None => CPanic
+             | Some t' => if negb (active_tick t') then CReject
+                          else clause_deactivated c r older rest
              end
            end
     end
   end.
 
-(* `if len(s.MTimeStates) > 0 { ... continue }` - this one continues the outer
-   loop.  true = skip the record.  Only Start.MTimeStates is consulted. *)
+(* `if len(s.MTimeStates) > 0 { ... continue }`.  true = skip the record.
+   Only Start.MTimeStates is consulted. *)
 Definition mtime_skip (c : hcfg) (q : query) (r : hrec) : bool :=
   let s := q_start q in let e := q_end q in
   if is_nil (t_mstates s) then false
@@ -387,13 +398,18 @@ Inductive step_res := SPanic | SSkip | STake.
 
 (* the body of `for i := len(db) - 1; i >= 0; i--` for one record *)
 Definition rec_step (c : hcfg) (q : query) (r : hrec) (older : option hrec) : step_res :=
-  if negb (clause_active c r (q_active q)) then SPanic
-  else if negb (clause_activated c r older (q_activated q)) then SPanic
-  else if negb (clause_inactive r (q_inactive q)) then SPanic
-  else if negb (clause_deactivated c r older (q_deactivated q)) then SPanic
-  else if mtime_skip c q r then SSkip
-  else if scalar_skip q r then SSkip
-  else STake.
+  match clause_active c r (q_active q) with
+  | CPanic => SPanic | CReject => SSkip | CPass =>
+  match clause_activated c r older (q_activated q) with
+  | CPanic => SPanic | CReject => SSkip | CPass =>
+  match clause_inactive c r (q_inactive q) with
+  | CPanic => SPanic | CReject => SSkip | CPass =>
+  match clause_deactivated c r older (q_deactivated q) with
+  | CPanic => SPanic | CReject => SSkip | CPass =>
+    if mtime_skip c q r then SSkip
+    else if scalar_skip q r then SSkip
+    else STake
+  end end end end.
 
 (* (position, db[i], db[i-1]) *)
 Fixpoint with_older (prev : option hrec) (pos : nat) (db : list hrec)
